@@ -28,7 +28,7 @@ import (
 //
 // A construct that cannot be classified makes the generation fail (the obligations then fail).
 
-func exprString(fset *token.FileSet, e ast.Expr) string {
+func c18ExprString(fset *token.FileSet, e ast.Expr) string {
 	var b bytes.Buffer
 	_ = printer.Fprint(&b, fset, e)
 	return b.String()
@@ -45,7 +45,7 @@ func findFunc(files []*ast.File, name string) *ast.FuncDecl {
 	return nil
 }
 
-func coqPairList(l [][]string) string {
+func c18CoqPairList(l [][]string) string {
 	parts := make([]string, len(l))
 	for i, t := range l {
 		fs := make([]string, len(t))
@@ -149,10 +149,10 @@ func init() {
 					switch v := kv.Value.(type) {
 					case *ast.CompositeLit:
 						for _, x := range v.Elts {
-							row = append(row, exprString(lfset, x))
+							row = append(row, c18ExprString(lfset, x))
 						}
 					default:
-						row = append(row, exprString(lfset, v))
+						row = append(row, c18ExprString(lfset, v))
 					}
 					out = append(out, row)
 				}
@@ -175,7 +175,7 @@ func init() {
 				return "", fmt.Errorf("localizeNativeFields: map entry %v is not {paths, locFn}", row)
 			}
 		}
-		fmt.Fprintf(&b, "Definition gen_native_map_fields : list (string * string * string) :=\n  %s.\n\n", coqPairList(nm))
+		fmt.Fprintf(&b, "Definition gen_native_map_fields : list (string * string * string) :=\n  %s.\n\n", c18CoqPairList(nm))
 		pm, err := rangedMap("localizeBuiltinPlugins")
 		if err != nil {
 			return "", err
@@ -185,7 +185,7 @@ func init() {
 				return "", fmt.Errorf("localizeBuiltinPlugins: map entry %v is not a field", row)
 			}
 		}
-		fmt.Fprintf(&b, "Definition gen_plugin_map_fields : list (string * string) :=\n  %s.\n\n", coqPairList(pm))
+		fmt.Fprintf(&b, "Definition gen_plugin_map_fields : list (string * string) :=\n  %s.\n\n", c18CoqPairList(pm))
 
 		// every call lc.<method>(args) in localizeNativeFields, in source order
 		nf := findFunc(lfiles, "localizeNativeFields")
@@ -202,13 +202,13 @@ func init() {
 			if id, ok := se.X.(*ast.Ident); ok && id.Name == "lc" {
 				arg := ""
 				if len(ce.Args) > 0 {
-					arg = exprString(lfset, ce.Args[0])
+					arg = c18ExprString(lfset, ce.Args[0])
 				}
 				calls = append(calls, []string{se.Sel.Name, arg})
 			}
 			return true
 		})
-		fmt.Fprintf(&b, "Definition gen_native_calls : list (string * string) :=\n  %s.\n\n", coqPairList(calls))
+		fmt.Fprintf(&b, "Definition gen_native_calls : list (string * string) :=\n  %s.\n\n", c18CoqPairList(calls))
 
 		// builtinplugins.go: FieldSpec literals grouped by the enclosing filter literal
 		var specs [][]string
@@ -224,7 +224,7 @@ func init() {
 			if !ok {
 				return true
 			}
-			ts := exprString(lfset, cl.Type)
+			ts := c18ExprString(lfset, cl.Type)
 			switch ts {
 			case "fsslice.Filter", "fieldspec.Filter":
 				group++
@@ -232,8 +232,8 @@ func init() {
 				fn := ""
 				ast.Inspect(cl, func(m ast.Node) bool {
 					as, ok := m.(*ast.AssignStmt)
-					if ok && len(as.Lhs) == 1 && exprString(lfset, as.Lhs[0]) == "lbp.locPathFn" {
-						fn = exprString(lfset, as.Rhs[0])
+					if ok && len(as.Lhs) == 1 && c18ExprString(lfset, as.Lhs[0]) == "lbp.locPathFn" {
+						fn = c18ExprString(lfset, as.Rhs[0])
 					}
 					return true
 				})
@@ -248,9 +248,9 @@ func init() {
 					if !ok {
 						continue
 					}
-					switch exprString(lfset, kv.Key) {
+					switch c18ExprString(lfset, kv.Key) {
 					case "Gvk":
-						g := exprString(lfset, kv.Value)
+						g := c18ExprString(lfset, kv.Value)
 						// resid.Gvk{Version: konfig.BuiltinPluginApiVersion, Kind: builtinhelpers.X.String()}
 						if !strings.Contains(g, "Version: konfig.BuiltinPluginApiVersion") {
 							serr = fmt.Errorf("field spec with unexpected Gvk %s", g)
@@ -277,8 +277,8 @@ func init() {
 		if serr != nil {
 			return "", serr
 		}
-		fmt.Fprintf(&b, "Definition gen_plugin_specs : list (string * string * string) :=\n  %s.\n\n", coqPairList(specs))
-		fmt.Fprintf(&b, "Definition gen_plugin_spec_fns : list (string * string) :=\n  %s.\n\n", coqPairList(fns))
+		fmt.Fprintf(&b, "Definition gen_plugin_specs : list (string * string * string) :=\n  %s.\n\n", c18CoqPairList(specs))
+		fmt.Fprintf(&b, "Definition gen_plugin_spec_fns : list (string * string) :=\n  %s.\n\n", c18CoqPairList(fns))
 
 		// log.Fatalf / log.Panicf sites of the package
 		var fatals [][]string
@@ -293,11 +293,11 @@ func init() {
 					if !ok {
 						return true
 					}
-					s := exprString(lfset, ce.Fun)
+					s := c18ExprString(lfset, ce.Fun)
 					if strings.HasPrefix(s, "log.Fatal") || strings.HasPrefix(s, "log.Panic") {
 						first := ""
 						if len(ce.Args) > 0 {
-							first = exprString(lfset, ce.Args[0])
+							first = c18ExprString(lfset, ce.Args[0])
 						}
 						fatals = append(fatals, []string{fd.Name.Name, s, strings.Trim(first, "\"")})
 					}
@@ -305,7 +305,7 @@ func init() {
 				})
 			}
 		}
-		fmt.Fprintf(&b, "Definition gen_fatal_sites : list (string * string * string) :=\n  %s.\n", coqPairList(fatals))
+		fmt.Fprintf(&b, "Definition gen_fatal_sites : list (string * string * string) :=\n  %s.\n", c18CoqPairList(fatals))
 		return b.String(), nil
 	})
 }
